@@ -1,6 +1,7 @@
 """Mode-E sub-checks for C17, C18, C19, C20 (DESIGN section 3)."""
 
 import itertools
+import re
 import json
 import os
 import shlex
@@ -485,10 +486,27 @@ class C20Tallies(EnumCheck):
                      canceled=sorted(f"j{i}" for i, c in enumerate(combo) if CLASSES[c] == "canceled"))
         if got2 != want2:
             res.append(V("by-type", f"ResultsSummary.get_results_by_type {got2} != {want2}"))
-        try:
-            rs.show_results()
-        except AssertionError as e:
-            res.append(V("show-results-assert", f"show_results assertion failed for {[CLASSES[c] for c in combo]}: {e}"))
+        import contextlib
+        import io as _io
+
+        for mode_kw in ({}, {"only_failed": True}, {"only_successful": True}):
+            buf = _io.StringIO()
+            try:
+                with contextlib.redirect_stdout(buf):
+                    rs.show_results(**mode_kw)
+            except AssertionError as e:
+                res.append(V("show-results-assert", f"show_results({mode_kw}) assertion failed for {[CLASSES[c] for c in combo]}: {e}"))
+                continue
+            text = buf.getvalue()
+            shown = {}
+            for key, lab in (("num_successful", "Num successful"), ("num_failed", "Num failed"), ("num_canceled", "Num canceled"),
+                             ("num_missing", "Num missing"), ("total", "Total")):
+                m_ = re.search(r"^%s: (\d+)\s*$" % lab, text, re.M)
+                shown[key] = int(m_.group(1)) if m_ else None
+            want_shown = dict(want, total=n)
+            if shown != want_shown:
+                res.append(V("show-results-tallies", f"show_results({mode_kw}) prints {shown} for results {[CLASSES[c] for c in combo]}, expected {want_shown} "
+                                                     f"(the filter selects the rows of the table, every job is still counted in exactly one tally)"))
         return res
 
     def kind(self, c):
